@@ -395,12 +395,13 @@ def run(ctx):
     if missing or stale:
         raise core.MachineryError("registry out of date: missing rows %s, stale rows %s" % (missing, stale))
     if ctx.quick:
-        cfgs = ["MC_Equivariance_%s.cfg" % m for m in ("und", "dir", "wund", "wdir", "sign")]
+        cfgs = ["MC_Equivariance_%s.cfg" % m for m in ("und_s1", "und_s2", "dir", "wund", "wdir_s1",
+                                                        "wdir_s2", "wdir_s3", "sign")]
     else:
         cfgs = (["MC_Equivariance_%s_thorough.cfg" % m for m in ("und", "wdir", "sign")] +
                 ["MC_Equivariance_%s_thorough_s%d.cfg" % (m, k) for m in ("dir", "wund") for k in (1, 2, 3, 4)])
     ctx.parallel([(lambda c=c: ctx.mc("MC_Equivariance.tla", c, timeout=3000, workers=3)) for c in cfgs],
-                 width=6)
+                 width=8)
     jobs = build_jobs(ctx)
     recs = pool.run_jobs(__name__, jobs)
     verdicts = validate_parallel(ctx, recs)
